@@ -736,7 +736,7 @@ pub fn run(run: &'static Run) {
     run.assume("git 2.39.5 builds the packs/indices (repack, pack-objects, multi-pack-index write) and is the oracle (cat-file --batch, verify-pack -v)");
     run.assume("MemoryCappedHashmap::new(0) is excluded: it panics by an explicit `expect(\"non zero\")` (documented constructor precondition, not a read)");
     run.assume("states = distinct (fixture, access path, cache configuration, residency of every key ever stored after the history); transitions = requests = oracle comparisons");
-    run.budget_secs(run.pick(38.0, 570.0));
+    run.budget_secs(run.pick(150.0, 1200.0)); // safety net only: sized for ~10 s / ~3 min on an idle 16-core machine
 
     let mut alphabets = serde_json::Map::new();
     for f in fxs.iter() {
